@@ -372,6 +372,8 @@ type SimKnobs struct {
 	StickPermille int     `json:"stick_permille"`
 	SuppressLock  bool    `json:"suppress_lock"`
 	SyncPermille  int     `json:"sync_permille"`
+	PCTDepth      int     `json:"pct_depth"`
+	PCTSteps      int     `json:"pct_steps"`
 }
 
 // DrawKnobs draws the scheduler knobs (swarm style: every run gets its own mix).
@@ -384,6 +386,11 @@ func DrawKnobs(rt *rapid.T, yields []int) SimKnobs {
 	k.StickPermille = rapid.SampledFrom([]int{0, 0, 500, 900}).Draw(rt, "stick")
 	k.SuppressLock = rapid.IntRange(0, 3).Draw(rt, "suppress") != 0
 	k.SyncPermille = rapid.SampledFrom([]int{0, 0, 500}).Draw(rt, "syncyield")
+	if rapid.IntRange(0, 4).Draw(rt, "pct") == 0 {
+		// a fifth of the runs: PCT scheduling (priorities + d change points) instead of the tape / random walk
+		k.PCTDepth = rapid.IntRange(1, 3).Draw(rt, "pctdepth")
+		k.PCTSteps = rapid.SampledFrom([]int{30, 100, 300, 1000}).Draw(rt, "pctsteps")
+	}
 	k.Tape = rapid.SliceOfN(rapid.Uint8Range(0, 5), 0, 48).Draw(rt, "tape")
 	k.Seed = rapid.Uint64().Draw(rt, "schedseed")
 	return k
@@ -392,7 +399,8 @@ func DrawKnobs(rt *rapid.T, yields []int) SimKnobs {
 // Config turns knobs into a simrt.Config.
 func (k SimKnobs) Config(keepLog bool, maxSteps int) simrt.Config {
 	return simrt.Config{Seed: k.Seed, Tape: k.Tape, YieldPermille: k.YieldPermille, StickPermille: k.StickPermille,
-		SuppressLock: k.SuppressLock, SyncPermille: k.SyncPermille, KeepLog: keepLog, MaxSteps: maxSteps}
+		SuppressLock: k.SuppressLock, SyncPermille: k.SyncPermille, KeepLog: keepLog, MaxSteps: maxSteps,
+		PCTDepth: k.PCTDepth, PCTSteps: k.PCTSteps}
 }
 
 // RunSim executes main as task 0 of a fresh simulation inside a synctest bubble.
